@@ -155,6 +155,10 @@ func run(w *world, raw []byte, link *router.VerifR1Link) answer {
 		txt = "PANIC"
 	}
 	a.text = txt
+	// packets of another path type are outside this engine's model (OHP/EPIC/BFD: engine router2)
+	if len(raw) >= 12 && raw[8] != 1 && a.kind != "PANIC" {
+		a.kind, a.text = "other", "otherpath"
+	}
 	return a
 }
 
@@ -271,6 +275,8 @@ func emit(e *vlib.Env, w *world, st *stats, sc *scenario, mut string) {
 		if decodeIn(raw) == nil {
 			tag = "~drop-undecodable"
 		}
+	case "other":
+		tag = "~otherpath"
 	}
 	e.Op(op, a.text, tag)
 	if a.kind == "PANIC" && st.panics < 3 {
